@@ -13,7 +13,7 @@ CHECKS = {
    "keys and server names outside the enumerated families are not covered; xxhash is exercised, not modelled",
    "bounded-exhaustive input enumeration against the real function", "DESIGN.md §4 C13"),
  "C19": (True, "seqx-input", "model_checking",
-   "Exhaustive enumeration of stated finite value families through the real encoders/decoders (verif export hooks for the unexported sortable and text-key codecs): round trip, injectivity, and key order = value order checked on adjacent elements of each value-sorted family (all pairs by transitivity), every Range/Prefix scan with bounds from 15-value families on memstore and bbolt; thorough sweeps all 2^32 float32 patterns (vectors and widened float64) and 2^33 int64 values.",
+   "Exhaustive enumeration of stated finite value families through the real encoders/decoders (verif export hooks for the unexported sortable and text-key codecs): round trip, injectivity, and key order = value order checked on adjacent elements of each value-sorted family (all pairs by transitivity), every Range/Prefix scan over 15-value numeric families, all strings of length<=2 over 7 bytes and a string family that is not prefix-closed, on memstore and bbolt, with every stored key and non-stored keys (prefixes of keys, key+00, predecessors) as bounds; thorough sweeps all 2^32 float32 patterns (vectors and widened float64) and 2^33 int64 values.",
    "int64/float64 values outside the families are reached only by the thorough sweeps; NaN excluded as the property states",
    "bounded-exhaustive input enumeration against the real codecs + exhaustive scan-bound enumeration", "DESIGN.md §4 C19"),
  "C20": (True, "seqx-input", "model_checking",
@@ -25,7 +25,7 @@ CHECKS = {
    "documents outside the alphabet; the order in which freed node ids are reused (Go map iteration) is not enumerated; states reached through a failed multi-point batch on an indexed schema are checked but not expanded (known finding F4 makes their futures schedule-dependent)",
    "explicit-state BFS over operation histories of the real code vs reference model", "DESIGN.md §4 C01"),
  "C02": (True, "seqx", "model_checking",
-   "(A) the complete operator x boundary-value (x end value) query space for case-sensitive/-insensitive string, string-array, integer, float and nested-path indexes plus all _and/_or trees of depth<=2 over a 6-leaf pool on a fixed 13-point data set; (W) ~1.6k range / comparison / prefix / containsAny queries on a 1200-point data set of pairwise distinct values, before and after deleting 300 points; (B) breadth-first search to depth 5 (thorough 8, with state de-duplication on the full bucket contents) over write histories that insert, change, remove, re-add and delete indexed fields and reuse node ids, with a ~400-query battery after every batch; both storage backends; every answer compared with direct evaluation of the predicate on the model documents.",
+   "(A) the complete operator x boundary-value (x end value) query space for case-sensitive/-insensitive string, string-array, integer, float and nested-path indexes plus all _and/_or trees of depth<=2 over a 6-leaf pool on a fixed 13-point data set; (W) ~1.6k range / comparison / prefix / containsAny queries on a 1200-point data set of pairwise distinct values, before and after deleting 300 points; (B) breadth-first search to depth 5 (thorough 8, with state de-duplication on the full bucket contents) over write histories that insert, change, remove, re-add and delete indexed fields and reuse node ids, with a ~400-query battery after every batch; both storage backends; every query is validated on a clone, the search runs with the validated object and the answer is compared with direct evaluation of the pristine query's predicate on the model documents.",
    "values outside the boundary alphabets; only queries that pass Validate(); NaN not stored",
    "explicit-state BFS over write histories + exhaustive query-space enumeration vs reference evaluation", "DESIGN.md §4 C02"),
  "C04": (True, "seqx", "model_checking",
@@ -77,15 +77,15 @@ CHECKS = {
    "whole requests are the unit of interleaving (node-database writes are serialised by bbolt); user ids without '/'",
    "explicit-state BFS over interleaved two-tenant histories of the real handlers with a differential (non-interference) oracle", "DESIGN.md §4 C16"),
  "C17": (True, "seqx", "model_checking",
-   "Every request history up to depth 3 (thorough 4) over {insert 2, insert 3, update existing+unknown, delete existing+unknown, delete all} on real in-process clusters of 1-3 nodes talking RPC over loopback, MaxShardPointCount {1,2}, 3 (thorough 8) placement seeds, each request entering through the next live node in rotation, with all servers up and with each server stopped (connections dropped) from each step on (8.4k histories); after every request, through every live node: each id found exactly once iff stored, filter search over limit x offset x sort (<= limit, no duplicates, results are stored points, globally sorted, exact when the limit covers the matches), flat search globally ordered by hybrid score, update/delete failure lists and their message.",
+   "Every request history up to depth 3 (thorough 4) over {insert 2, insert 3, update existing+unknown, delete existing+unknown, delete all} on real in-process clusters of 1-3 nodes talking RPC over loopback, MaxShardPointCount {1,2}, 3 (thorough 8) placement seeds, each request entering through the next live node in rotation, with all servers up, with each server stopped (connections dropped) from each step on, and with all servers up but every cached RPC connection broken from each step on (verif hook VerifBreakRPCClients; 9.4k histories); plus one deployment with three full shards of 30 points; after every request, through every live node: each id found exactly once iff stored, filter search over limit x offset x sort (<= limit, no duplicates, results are stored points, globally sorted, exact when the limit covers the matches), flat search globally ordered by hybrid score, update/delete failure lists and their message.",
    "ids unique per collection; nothing claimed when the user's routing node is down; a search may fail as a whole when a shard server is down; offset heuristic not claimed exact",
    "exhaustive enumeration of request histories x deployments x single-server faults on real nodes vs reference model", "DESIGN.md §4 C17"),
  "C14": (True, "faultx", "fault_enumeration",
-   "Enumeration of configurations and faults on real in-process nodes (RPC over loopback): all 42 ordered pairs of different non-empty server sets over {A,B,C} x placement seeds x the order in which the nodes run their start-up Sync (permutations and fully concurrent), data created through the old cluster (4 users, 8 shard files); for every world the receive handler (verif fault hook at the top of RPCSendShard) fails at chunk k of the t-th transfer, optionally followed by truncating the partial destination file to 0 / 1 / size-1 bytes, then all nodes restart and synchronise twice; synthetic shard files around multiples of the 8 MiB chunk size with a failure at every chunk index. Oracle: nothing lost after an interrupted run; afterwards every record and shard file on exactly its RendezvousHash owner, byte-identical (xxhash + length), every point readable through every new node.",
+   "Enumeration of configurations and faults on real in-process nodes (RPC over loopback): all 42 ordered pairs of different non-empty server sets over {A,B,C} x placement seeds x the order in which the nodes run their start-up Sync (permutations and fully concurrent), data created through the old cluster (4 users, two of whose ids are prefixes of the two others; 8 shard files); for every world the receive handler (verif fault hook at the top of RPCSendShard) fails at chunk k of the t-th transfer, optionally followed by truncating the partial destination file to 0 / 1 / size-1 bytes, then all nodes restart and synchronise twice; synthetic shard files around multiples of the 8 MiB chunk size with a failure at every chunk index. Oracle: nothing lost after an interrupted run; afterwards every record and shard file on exactly its RendezvousHash owner, byte-identical (xxhash + length), every point readable through every new node.",
    "a killed sender = its Sync returning an error; a killed receiver = the file state after chunk k; RpcRetries 1; real kill -9 inside write(2) replaced by torn-file enumeration",
    "exhaustive enumeration of configurations x fault points (chunk indices, torn files) on the real synchronisation code", "DESIGN.md §4 C14"),
  "C18": (True, "seqx-input", "exploration",
-   "Exhaustive enumeration of a bounded request grammar against the assembled HTTP handler chain (v1 + v2 mux, app-header middleware, Recover) of a real node, in worker processes so that a fatal error is attributed to the request in flight: every byte string of length <= 4 (thorough 5) over structural JSON / MessagePack alphabets as body of all 10 body-taking routes; every node of 11 valid base requests deleted or replaced by each of 32 boundary / wrong-type / reserved values in JSON and MessagePack; header and content-type variants, unknown and body-less routes, every v1 route on a v2 collection and vice versa, quota / size / vector-length limits, nesting depths 10..10^6. Oracle: never 5xx, never a dead process, certainly-invalid requests get 4xx, any 4xx leaves the digest of all collections and points unchanged (a difference is confirmed by replaying only the refused requests on a fresh node), unmodified base requests succeed.",
+   "Exhaustive enumeration of a bounded request grammar against the assembled HTTP handler chain (v1 + v2 mux, app-header middleware, Recover) of a real node, in worker processes so that a fatal error is attributed to the request in flight: every byte string of length <= 4 (thorough 5) over structural JSON / MessagePack alphabets as body of all 10 body-taking routes; every node of 11 valid base requests deleted or replaced by each of 32 boundary / wrong-type / reserved values in JSON and MessagePack; header and content-type variants, unknown and body-less routes, every v1 route on a v2 collection and vice versa, quota / size / vector-length limits, composites carrying both an _and and an _or list with a schema-violating member, nesting depths 10..10^6. Oracle: never 5xx, never a dead process, certainly-invalid requests get 4xx, any 4xx leaves the digest of all collections and points unchanged (a difference is confirmed by replaying only the refused requests on a fresh node), unmodified base requests succeed.",
    "the input space is infinite: the grammar, its length bound and single-field mutations are the stated bound; huge bodies (memory exhaustion) are not explored",
    "bounded-exhaustive enumeration of request bytes and single-field mutations against the real handlers with crash attribution", "DESIGN.md §4 C18"),
 }
